@@ -41,7 +41,9 @@ fn jarr(items: &[String]) -> String {
 
 fn toks<T: ToTokens>(t: &T) -> String {
     // token text with all whitespace removed: insensitive to pretty-printing, sensitive to tokens
-    t.to_token_stream().to_string().split_whitespace().collect::<Vec<_>>().join(" ")
+    let s = t.to_token_stream().to_string().split_whitespace().collect::<Vec<_>>().join(" ");
+    // one spelling whatever the token printer's spacing around brackets, commas and path separators is
+    s.replace(" (", "(").replace("( ", "(").replace(" )", ")").replace(" ,", ",").replace(" :: ", "::").replace(" < ", "<").replace(" >", ">")
 }
 
 fn hash_str(s: &str) -> String {
